@@ -41,7 +41,8 @@ def gen():
     out.append("Definition ac_start_kind : string := %s.\n" % coq_str(m.group(1)))
     if not re.search(r"if\s+replace_char_map\.contains_key\(cols\[0\]\)\s*\{\s*return\s+Err", t):
         raise F.FactError("duplicate-key rejection not found in read_rewrite_lists")
-    if not re.search(r"line\.split_whitespace\(\)", t):
+    # the columns of a line are ALL its white-space separated pieces (nothing filtered or cut off in between)
+    if not re.search(r"let\s+\w+\s*:\s*Vec<_>\s*=\s*\w+\.split_whitespace\(\)\.collect\(\)\s*;", t):
         raise F.FactError("read_rewrite_lists no longer splits on white space (keys could be empty)")
 
     # --- fast path
